@@ -5,7 +5,7 @@ import lib, storelib as S, arithlib as A
 from lib import Result, model_call, run_sharded, e_fmt, e_list, Reader, outcome
 
 RULE = ('array shapes up to 3x3 and lengths up to 8, operand formats with n_word<=12, element values from the extremes of the format (all most-negative, all most-positive, alternating) and random codes; '
-        'sum, cumsum, prod, cumprod, dot / matmul (values only), trace, max, min, sort, clip, transpose, diagonal through the NumPy function and the equivalent method, axis None or any valid axis; trace and diagonal also with offset in {-2, -1, 1, 2}. '
+        'sum, cumsum, prod, cumprod, dot / matmul (values only), trace, max, min, sort, clip, transpose, diagonal through the NumPy function and the equivalent method, axis None or any valid axis (also given as a negative number); trace and diagonal also with offset in {-2, -1, 1, 2}. '
         'The implementation result is compared with the exact result on the element values (Python integers / rationals), with the documented growth rule, with "no overflow flag", with isinstance(result, Fxp), and with the model (sum, cumsum, prod, cumprod, dot, trace). '
         'Non-trivial = at least two elements and a non-zero result; distinct by full input.')
 ASSUMPTIONS = ['the NumPy dispatch glue (__array_function__, method wrappers) is exercised by running both call routes; it has no Gallina counterpart', 'matmul goes through the float route with an auto-sized result: only its values are compared']
@@ -32,6 +32,7 @@ def gen(rng):
     axis = rng.choice([None] + list(range(len(shape)))) if op in ('sum', 'cumsum', 'prod', 'cumprod', 'max', 'min', 'sort') else None
     if op in ('sum', 'prod', 'max', 'min') and len(shape) == 2 and rng.random() < 0.2: axis = (0, 1)      # (a tuple of axes is a valid axis)
     if op == 'sort' and axis is None: axis = -1
+    if isinstance(axis, int) and not isinstance(axis, bool) and axis >= 0 and rng.random() < 0.3: axis = axis - len(shape)      # (a negative axis names the same axis)
     c = {'f': [s, nw, nf], 'shape': list(shape), 'codes': codes, 'op': op, 'axis': axis, 'route': rng.choice(['numpy', 'method'])}
     if op in ('dot', 'matmul'):
         nw2 = rng.randint(2, 12); s2 = rng.random() < 0.6; nf2 = rng.randint(0, nw2); lo2, hi2 = S.fmt_bounds(s2, nw2)
